@@ -329,6 +329,24 @@ theorem v1_loaded_in_bounds (items : List Item) (es : List Elem) (h : loadedFlow
     rw [v1_loaded_other_unchanged items h'] at h
     exact v1_offsets_in_bounds items es h
 
+/-- `v1_dynamic_loaded_in_bounds`: a flow added at run time goes through the same loader (`_process_start_flow` calls
+    `_load_flow_config` on `start_flow :: parse_flow_elements body`); its first element is the `start_flow` element, so the
+    loader keeps the list as it is — also when the generated body begins with a `meta` / `priority` statement — and every
+    offset of the flow the runtime holds is in bounds. -/
+theorem v1_dynamic_loaded_in_bounds (items : List Item) (es : List Elem) (h : dynamicFlow items = .ok es) :
+    loadFlow es = es ∧ OffsetsInBounds (loadFlow es) ∧ Resolved (loadFlow es) := by
+  have hb := v1_dynamic_flow_in_bounds items es h
+  unfold dynamicFlow at h
+  cases hc : compileFull items with
+  | error m => rw [hc] at h; cases h
+  | ok es0 =>
+    rw [hc] at h
+    cases h
+    have : loadFlow (startFlowElem :: es0) = startFlowElem :: es0 := by
+      simp [loadFlow, isMeta, startFlowElem, metaKind]
+    rw [this]
+    exact ⟨rfl, hb⟩
+
 /-- non-vacuity: a subflow-like flow (leading meta) that STARTS with a loop whose body has its own meta element and an
     `if` with a nested meta that ENDS the flow: accepted, the loader removes exactly the leading element (7 of 8 stay),
     the nested meta elements are still there (finite fact, by evaluation) -/
